@@ -33,6 +33,8 @@ TEXT = {
            "DESIGN.md section 4, C14", "property-based testing (rapid): round-trip + segmentation-independence + reference model at the socket"),
  "C15": _t("generated dynamic-threshold streams; background/threshold invariants read in-package after every frame, both on a bare detector and inside a MotionProcessor, and at every StartRecording." + EXPL,
            "DESIGN.md section 4, C15", "property-based testing (rapid): state invariants after every step"),
+ "C16": _t("generated request schedules (1-4 requester goroutines with scripts over TakeSnapshot / TakeTestRecording / CameraInfo / spin / yield / sleep) against 1-3 camera connections, GOMAXPROCS 1-16, under the Go race detector; whole-frame and freshness oracle on every returned snapshot, request-free twin for the recording pipeline, stall detection, zero race reports." + EXPL + " Interleavings are those the Go scheduler produces under the generated perturbation; the harness does not own the scheduler.",
+           "DESIGN.md section 4, C16", "schedule fuzzing (rapid-generated request scripts and perturbations) under the Go race detector, with a whole-frame/freshness oracle and a request-free twin"),
  "C17": _t("generated valid-frame streams with test-recording requests; exact tiling oracle for the continuous sink, 21-frame oracle for the test sink, twin runs for independence from motion/window/requests." + EXPL,
            "DESIGN.md section 4, C17", "property-based testing (rapid): exact oracle + metamorphic twins"),
  "C20": _t("generated (message, arrival time) sequences with boundary-valued gaps against the model of the statement, the periodic corollary, and (thorough) every sequence of 7 arrivals over 2 messages x 4 gap classes." + EXPL,
